@@ -220,6 +220,27 @@ fn check_pair(n: usize, a: &[f32], b: &[f32], off_a: usize, off_b: usize, st: &m
         within(Metric::DotProduct, n, a, b, *d, &format!("dot kernel [{name}]"))?;
         st.bump("kernel_path_checks");
     }
+    // "for every pair of vectors": the reported distance is a function of the two vectors only, not of what was
+    // computed before on this thread. Every sequence above ends with d(a, a), which would leave any per-thread scratch
+    // state with two equal operands; here a pair of *different* long vectors is followed at once by a strictly
+    // shorter pair (seeded change C11/r2: reused scratch buffers whose tails go stale).
+    for m in [n - 1, n / 2] {
+        if m == 0 || m == n {
+            continue;
+        }
+        let sa = UnalignedVector::<f32>::from_bytes(&ba[off_a..off_a + 4 * m]).map_err(|e| format!("from_bytes: {e}"))?;
+        let sb = UnalignedVector::<f32>::from_bytes(&bb[off_b..off_b + 4 * m]).map_err(|e| format!("from_bytes: {e}"))?;
+        let (sa, sb) = (&*sa, &*sb);
+        let _ = reported::<Euclidean>(ua, ub, n);
+        within(Metric::Euclidean, m, &a[..m], &b[..m], reported::<Euclidean>(sa, sb, m), "Euclidean right after a longer pair")?;
+        let _ = reported::<Manhattan>(ua, ub, n);
+        within(Metric::Manhattan, m, &a[..m], &b[..m], reported::<Manhattan>(sa, sb, m), "Manhattan right after a longer pair")?;
+        let _ = reported::<Cosine>(ua, ub, n);
+        within(Metric::Cosine, m, &a[..m], &b[..m], reported::<Cosine>(sa, sb, m), "Cosine right after a longer pair")?;
+        let _ = reported::<DotProduct>(ua, ub, n);
+        within(Metric::DotProduct, m, &a[..m], &b[..m], reported::<DotProduct>(sa, sb, m), "DotProduct right after a longer pair")?;
+        st.bump("shorter_pair_right_after_longer");
+    }
     Ok(())
 }
 
@@ -296,7 +317,10 @@ fn c11_enumerated(report: &mut Report, max_n: usize) -> Result<(), Fail> {
 /// End to end: stored items at whatever alignment LMDB gives them, through QueryBuilder.
 fn c11_end_to_end(report: &mut Report, seed: u64) -> Result<(), Fail> {
     let dims_list = [1usize, 2, 15, 16, 17, 31, 32, 33, 47, 63, 64, 65, 100, 127, 128, 129, 255, 256, 300];
-    for (k, dims) in dims_list.iter().enumerate() {
+    // ascending, then descending: a query at a small dimension also follows queries at larger ones on this thread
+    let order: Vec<(usize, &usize)> = dims_list.iter().enumerate().chain(dims_list.iter().enumerate().rev().skip(1).step_by(2)).collect();
+    for (pass, (k, dims)) in order.into_iter().enumerate() {
+        let k = k + if pass >= dims_list.len() { 32 } else { 0 };
         for metric in F32_METRICS {
             let mut items: BTreeMap<u32, Vec<f32>> = BTreeMap::new();
             for id in 0..9u32 {
@@ -499,6 +523,26 @@ fn check_bq_pair(a: &[f32], b: &[f32], st: &mut CaseStats) -> Result<(), String>
     }
     if h == 0 && (e != 0.0 || m != 0.0 || c != 0.0) {
         return Err(format!("equal sign patterns at distance ({e}, {m}, {c})"));
+    }
+    // the same right after a longer pair of different patterns (per-thread scratch state, see check_pair)
+    if d >= 2 {
+        let m = if d > 65 { d - 64 } else { d / 2 };
+        let (sa, sb) = (&a[..m], &b[..m]);
+        let hs = hamming(sa, sb);
+        let _ = bq_reported::<BinaryQuantizedEuclidean>(a, b);
+        let es = bq_reported::<BinaryQuantizedEuclidean>(sa, sb);
+        let _ = bq_reported::<BinaryQuantizedManhattan>(a, b);
+        let ms = bq_reported::<BinaryQuantizedManhattan>(sa, sb);
+        let _ = bq_reported::<BinaryQuantizedCosine>(a, b);
+        let cs = bq_reported::<BinaryQuantizedCosine>(sa, sb);
+        let (we, wm) = ((4 * hs as u32) as f32 / m as f32, (2 * hs as u32) as f32 / m as f32);
+        let wc = hs as f32 / ((m + 63) / 64 * 64) as f32;
+        if es.to_bits() != we.to_bits() || ms.to_bits() != wm.to_bits() || !((cs - wc).abs() <= 4.0 * f32::EPSILON) {
+            return Err(format!(
+                "quantised distances of a {m}-dimensional pair computed right after a {d}-dimensional one: h={hs}: got ({es}, {ms}, {cs}), expected ({we}, {wm}, {wc})"
+            ));
+        }
+        st.bump("shorter_pair_right_after_longer");
     }
     st.bump("distance_triples");
     Ok(())
